@@ -93,8 +93,13 @@ impl WorkerReport {
     }
 }
 
+/// Root of the verification tree the binary belongs to (`check` exports it; default /verif).
+pub fn root() -> PathBuf {
+    PathBuf::from(std::env::var("VERIF_ROOT").unwrap_or_else(|_| "/verif".to_string()))
+}
+
 pub fn out_dir() -> PathBuf {
-    let p = PathBuf::from(std::env::var("VERIF_OUT").unwrap_or_else(|_| "/verif/out".to_string()));
+    let p = std::env::var("VERIF_OUT").map(PathBuf::from).unwrap_or_else(|_| root().join("out"));
     let _ = std::fs::create_dir_all(p.join("replays"));
     p
 }
@@ -125,7 +130,7 @@ pub struct KnownEntry {
 }
 
 pub fn load_known() -> KnownFindings {
-    let p = std::env::var("VERIF_KNOWN").unwrap_or_else(|_| "/verif/known_findings.json".to_string());
+    let p = std::env::var("VERIF_KNOWN").map(PathBuf::from).unwrap_or_else(|_| root().join("known_findings.json"));
     std::fs::read_to_string(p).ok().and_then(|s| serde_json::from_str(&s).ok()).unwrap_or_default()
 }
 
@@ -193,7 +198,7 @@ pub fn finish(spec: &Spec, tier: &str, seed: u64, wall_s: f64, rep: &WorkerRepor
         "wall_s": wall_s,
         "violations": fresh.len(),
     });
-    let evdir = PathBuf::from(std::env::var("VERIF_EVIDENCE").unwrap_or_else(|_| "/verif/evidence".to_string()));
+    let evdir = std::env::var("VERIF_EVIDENCE").map(PathBuf::from).unwrap_or_else(|_| root().join("evidence"));
     let _ = std::fs::create_dir_all(&evdir);
     let evpath = evdir.join(format!("{}.json", spec.prop));
     let observed_enough = rep.evaluations >= 1 && distinct >= spec.min_nontrivial.max(2);
